@@ -1,2 +1,21 @@
-From Coq Require Import List.
-Theorem C17_placeholder : True. Proof. exact I. Qed.
+(* C17 - generated code is loop-free and size-generic.
+   The text einx returns is accepted by the decoder of the straight-line language of Model/Ir.v
+   (the correspondence check fails closed otherwise); for that language the number of backend
+   calls / updates / assertions of any execution is bounded by the number of call sites written
+   in the text - independent of every tensor size and value. *)
+From Coq Require Import String List ZArith Arith.
+From EinxV Require Import Model.Ir Proofs.StraightLine.
+Import ListNotations.
+
+Theorem C17_calls_fixed_by_the_text : forall fuel pre c es r,
+  sexec fuel pre c = Some (es, r) -> List.length es <= body_sites pre + body_sites (c_body c) + sites (c_ret c).
+Proof. exact events_bounded_by_text. Qed.
+Print Assumptions C17_calls_fixed_by_the_text.
+
+(* the statement type has no loop, conditional or comprehension constructor: every statement is
+   one of assignment / expression / item update / assert / import *)
+Theorem C17_no_loops_by_construction : forall c : stmt,
+  (exists x e, c = StAssign x e) \/ (exists e, c = StExpr e) \/ (exists o k op v, c = StAug o k op v)
+  \/ (exists e m, c = StAssert e m) \/ (exists i f a, c = StImport i f a).
+Proof. intros [x e|e|o k op v|e m|i f a]; eauto 10. Qed.
+Print Assumptions C17_no_loops_by_construction.
